@@ -189,6 +189,22 @@ class CloneWorld:
         top = self.verb("Mutate", mk, names=["z"], values=[self.fn(self.ref(al, amap[us], "s"), self.ref(al2, amap2[ua2], "a"))], uuids=[um2])
         return top
 
+    def sample_self_join(self):
+        """`t >> filter` joined with `t >> group_by >> summarize >> alias()`: both inputs are built on the *same* source
+        object, and the alias covers only the columns that survive the summarize - the identity of the dropped column `b`
+        must keep denoting the left input after cloning"""
+        t = self.leaf("t", ["a", "b"])
+        ua, ub = t.attrs["cols"]["a"].attrs["_uuid"], t.attrs["cols"]["b"].attrs["_uuid"]
+        left = self.verb("Filter", t, predicates=[self.fn(self.ref(t, ub, "b"), self.lit(0))])
+        grp = self.verb("GroupBy", t, group_by=[self.ref(t, ua, "a")], add=False)
+        us = self.p.fresh_uuid()
+        summ = self.verb("Summarize", grp, names=["s"], values=[self.fn(self.ref(t, ub, "b"))], uuids=[us])
+        amap = {ua: self.p.fresh_uuid(), us: self.p.fresh_uuid()}
+        al = self.verb("Alias", summ, uuid_map=amap)
+        jn = self.verb("Join", left, right=al, on=self.fn(self.ref(t, ua, "a"), self.ref(al, amap[ua], "a")), how="left", validate="m:m")
+        um = self.p.fresh_uuid()
+        return self.verb("Mutate", jn, names=["d"], values=[self.fn(self.ref(t, ub, "b"), self.ref(al, amap[us], "s"))], uuids=[um])
+
     # ---- reference reading of a tree (plain Python over the stub objects) -------------------------------------------
     @staticmethod
     def nodes(root):
@@ -205,23 +221,56 @@ class CloneWorld:
         return out
 
     def def_sites(self, root):
-        """uuid -> where the column is defined: (position of the node in pre-order, 'leaf:<name>' | index); alias identities
-        denote the column they rename"""
-        sites = {}
+        """resolver of the tree: {(referencing node position, uuid): definition site}.  A reference in the expressions of the
+        node at pre-order position i denotes the column found by searching that node's inputs: a Mutate / Summarize that
+        creates the identity, a source table that has it, through an alias with fresh identities only via its map (left
+        input of a join first).  Positions count every occurrence, so a source shared by both inputs of a self-join has two
+        positions - exactly as in the clone, where it becomes two tables."""
         nodes = self.nodes(root)
-        for i, n in reversed(list(enumerate(nodes))):  # children first
+        pos = {}
+        # position of each occurrence: nodes() is a pre-order walk; children positions are computed by the same walk
+        counter = [0]
+        tree = []
+
+        def walk(n):
+            i = counter[0]
+            counter[0] += 1
+            kids = [walk(c) for k in ("child", "right") for c in [n.attrs.get(k)] if isinstance(c, Obj)]
+            tree.append((i, n, kids))
+            return i
+
+        walk(root)
+        kids_of = {i: k for i, _n, k in tree}
+        node_at = {i: n for i, n, _k in tree}
+
+        def resolve(i, uid, include_self):
+            n = node_at[i]
             c = n.cls.name
             if c == "StubLeaf":
                 for nm, col in n.attrs["cols"].items():
-                    sites[col.attrs["_uuid"]] = (i, f"leaf:{nm}")
-            elif c in ("Mutate", "Summarize"):
-                for j, u in enumerate(n.attrs["uuids"]):
-                    sites[u] = (i, j)
-            elif c == "Alias" and n.attrs.get("uuid_map") is not None:
-                for old, new in n.attrs["uuid_map"].items():
-                    if old in sites:
-                        sites[new] = sites[old]
-        return sites
+                    if col.attrs["_uuid"] == uid:
+                        return (i, f"leaf:{nm}")
+                return None
+            if include_self and c in ("Mutate", "Summarize") and uid in (n.attrs.get("uuids") or []):
+                return (i, n.attrs["uuids"].index(uid))
+            if include_self and c == "Alias" and n.attrs.get("uuid_map") is not None:
+                back = {new: old for old, new in n.attrs["uuid_map"].items()}
+                if uid not in back:
+                    return None
+                uid = back[uid]
+            for k in kids_of[i]:
+                r = resolve(k, uid, True)
+                if r is not None:
+                    return r
+            return None
+
+        class _Sites(dict):
+            def get_for(self_, i, uid):
+                return resolve(i, uid, False)
+
+        s_ = _Sites()
+        s_.resolve = resolve
+        return s_
 
     def col_refs(self, root):
         """[(node position, slot path, Col object)] for every column reference in the expressions of the tree"""
